@@ -780,6 +780,9 @@ func (p *c19) mergeKeys(rec *core.Recorder, r *core.Rand) {
 	}
 }
 
+type c19Cents int64
+type c19Ratio float64
+
 var reGrouped = regexp.MustCompile(`^-?\d{1,3}(,\d{3})*(\.\d+)?$`)
 
 func (p *c19) numbers(rec *core.Recorder, r *core.Rand) {
@@ -818,6 +821,25 @@ func (p *c19) numbers(rec *core.Recorder, r *core.Rand) {
 			}
 			rec.Count("typed-small-integers", 1)
 		}
+	}
+	if r.P(1, 25) {
+		// the smallest and largest values of the sized integer kinds
+		lim := []struct {
+			n int64
+			v interface{}
+		}{{-128, int8(-128)}, {127, int8(127)}, {-32768, int16(-32768)}, {-2147483648, int32(-2147483648)}, {2147483647, int32(2147483647)}, {255, uint8(255)}, {65535, uint16(65535)}, {4294967295, uint32(4294967295)}, {-127, int8(-127)}}[r.Intn(9)]
+		num, den, ctxVal = lim.n, 1, lim.v
+		v = new(big.Rat).SetFrac64(num, den)
+		rec.Count("integer-kind-limits", 1)
+	}
+	if r.P(1, 25) {
+		// named number types are numbers
+		if den == 1 {
+			ctxVal = c19Cents(num)
+		} else {
+			ctxVal = c19Ratio(f)
+		}
+		rec.Count("named-number-types", 1)
 	}
 	if r.P(1, 40) {
 		// floats beyond the int range: rounding them gives the same whole number back
